@@ -7,7 +7,7 @@ CONSTANTS
   MaxFaults = 1
   MaxRecs = 4
   WithFin = FALSE
-  ForeignAct = FALSE
+  ForeignAct = TRUE
   Foreign = {"d1"}
   FixGC = TRUE
   MidEnv = FALSE
